@@ -20,13 +20,20 @@ Inductive anomaly :=
 | AActiveOver (opi active inprog : N) (* settled point: more workers counted as working than workers really running a
                                         job -- a job waits at a worker that runs nothing (e.g. a replacement that was
                                         not given its predecessor's queue); judged only where the model's own run is clean *)
+| AQueuedWhileFree (opi depth free : N) (* settled point, factory-queueing router, no discard limit: `depth` accepted jobs wait in
+                                        the factory queue while `free` workers are idle, alive and not draining -- they have
+                                        no fate and nothing is going to give them one; judged only where the model's own run
+                                        has no such point at the same op (sticky routing and a rate limit can hold a job back
+                                        legitimately) *)
 (* C14 *)
 | AAffinity (k w1 w2 : N) (opi : N)  (* key k in progress on two workers at once *)
 | AOrder (k j1 j2 : N)               (* key-persistent: j2 dispatched after j1 but started before it *)
 | ATwoAtOnce (w : N) (opi : N)       (* worker w runs two jobs at once *)
 | AOutsidePool (j w : N)             (* custom routing started a job on a worker outside every pool size in effect *)
 | ASpread (opi : N)                  (* round robin: n consecutive dispatches to an idle pool of n hit a worker twice *)
-| AIdleBacklog (opi : N)             (* queuer: factory queue non-empty while a worker is free *)
+| AIdleBacklog (opi : N)             (* queuer: factory queue non-empty while a worker is free; sticky queuer: the same, judged
+                                        only where the model's own run has no such point at the same op (a queued job whose
+                                        key is being processed waits for that worker, whoever else is idle) *)
 | AActiveUnder (opi active inprog : N). (* fewer active workers reported than workers really running a job *)
 
 Record prog := mkP { p_j : N; p_w : N; p_a : N; p_k : N }.   (* a job in progress *)
@@ -116,10 +123,11 @@ Definition scan_query (r : router) (nolimit : bool) (opi : N) (inp : list prog) 
   let cap := q_value (fun e => match e with EQCap n => Some n | _ => None end) evs in
   (match depth, cap with
    | Some d, Some c =>
-       (* plain queuer only: with sticky routing a queued job whose key is being processed must wait for
-          that worker, whoever else is idle *)
-       if (match r with RQueuer => true | _ => false end) && nolimit && (0 <? d) && (0 <? c)
-       then [AIdleBacklog opi] else []
+       (* with sticky routing a queued job whose key is being processed must wait for that worker, whoever
+          else is idle: lib/c13.py, lib/c14.py apply these to a sticky history only where the model's own
+          run of the scenario is free of them at the same op *)
+       if factory_queueing_r r && nolimit && (0 <? d) && (0 <? c)
+       then [AIdleBacklog opi; AQueuedWhileFree opi d c] else []
    | _, _ => [] end)
   ++ (match active with
       | Some a => let n := N.of_nat (length (dedup (map p_w inp))) in
@@ -219,7 +227,7 @@ Definition jobs_mentioned (os : list op) (flat : list event) : list N :=
 Definition is_c13 (a : anomaly) : bool :=
   match a with
   | ATwoStarts _ | ATwoFates _ | AEndNoStart _ | ARetNoDisc _ | AAccAndRet _ | AUnknownJob _ | ASilentLoss _ _
-  | AActiveOver _ _ _ => true
+  | AActiveOver _ _ _ | AQueuedWhileFree _ _ _ => true
   | _ => false
   end.
 
